@@ -26,10 +26,10 @@ def plan(tier, seed):
 
 def thresholds(tier):
   t = {"designs": 120, "elaborations": 1500, "nets_compared": 10000, "designs_with_10_orders": 100, "member_value_comparisons": 5000,
-       "adjacency_comparisons": 1000, "sibling_chain_designs": 80, "interface_connections_in_both_orientations": 80, "constant_template_designs": 80}
+       "adjacency_comparisons": 1000, "sibling_chain_designs": 80, "interface_connections_in_both_orientations": 80, "constant_template_designs": 80, "holey_list_designs": 80}
   if tier == "thorough":
     t = {k: v * 12 for k, v in t.items()}
-    t["sibling_chain_designs"] = 600; t["interface_connections_in_both_orientations"] = 600; t["constant_template_designs"] = 600      # 60 per shard
+    t["sibling_chain_designs"] = 600; t["interface_connections_in_both_orientations"] = 600; t["constant_template_designs"] = 600; t["holey_list_designs"] = 600      # 60 per shard
   return t
 
 
@@ -267,6 +267,67 @@ def run_chain(sh, case):
     G.unload(mod)
 
 
+def run_holey(sh, case):
+  """signals kept in lists that ALSO hold non-hardware entries (None for an unused / 1-based slot, a plain int, an empty list) at
+  the front, in the middle or at the end, one or two levels deep, possibly inside a sub-component: the nets are the connected
+  components of the connection graph all the same, with the right writer, and every member follows the writer in simulation"""
+  rng = sh.rng("holey", case)
+  n = rng.randrange(2, 5)
+  hole = rng.choice([None, None, 0, "x"])
+  where = rng.choice(["front", "front", "middle", "end", "two-front", "none"])
+  two_d = rng.random() < 0.3
+  in_child = rng.random() < 0.4
+  slots = list(range(n))
+  lay = {"front": [hole] + slots, "two-front": [hole, hole] + slots, "middle": slots[:1] + [hole] + slots[1:], "end": slots + [hole], "none": slots}[where]
+  idx = []
+  for i, e in enumerate(lay):
+    if where in ("front", "two-front") and i < (2 if where == "two-front" else 1): continue
+    if where == "middle" and i == 1: continue
+    if where == "end" and i == len(lay) - 1: continue
+    idx.append(i)
+  items = ", ".join("Wire(8)" if i in idx else repr(hole) for i in range(len(lay)))
+  at = (lambda i: f"s.stage[0][{idx[i]}]") if two_d else (lambda i: f"s.stage[{idx[i]}]")
+  decl = f"s.stage = [[{items}]]" if two_d else f"s.stage = [{items}]"
+  flip = rng.random() < 0.5
+  cons = [f"{at(i + 1)} //= {at(i)}" if not flip else f"connect({at(i)}, {at(i + 1)})" for i in range(n - 1)]
+  body = ["    s.in_ = InPort(8); s.out = OutPort(8)", "    " + decl] + ["    " + c for c in cons] + \
+         ["    @update", "    def up_first():", f"      {at(0)} @= s.in_ + 1", "    @update", "    def up_last():", f"      s.out @= {at(n - 1)}"]
+  if in_child:
+    src = "from pymtl3 import *\nclass Inner(Component):\n  def construct(s):\n" + "\n".join(body) + \
+          "\nclass HTop(Component):\n  def construct(s):\n    s.in_ = InPort(8); s.out = OutPort(8)\n    s.c = Inner()\n    s.c.in_ //= s.in_\n    s.out //= s.c.out\n"
+    pre = "s.c."
+  else:
+    src = "from pymtl3 import *\nclass HTop(Component):\n  def construct(s):\n" + "\n".join(body) + "\n"
+    pre = "s."
+  info = {"wires": n, "hole": repr(hole), "where": where, "two_levels": two_d, "inside_child": in_child, "connect_flipped": flip}
+  mod = G.load_source(src, "c08holey")
+  try:
+    for mode in ("default", "mamba"):
+      top = mod.HTop()
+      try:
+        M.apply_mode(top, mode, rng)
+      except Exception as e:
+        sh.violation("legal-design-with-holes-in-signal-lists-could-not-be-built", dict(info, mode=mode, error=f"{type(e).__name__}: {str(e)[:300]}", design_source=src), case=("holey", case)); return
+      nets, _ = observed_nets(top)
+      want = frozenset(at(i).replace("s.", pre, 1) for i in range(n))
+      sh.count("holey_list_nets_compared")
+      if n >= 2 and nets.get(want, "missing") != at(0).replace("s.", pre, 1):
+        sh.violation("nets-differ-from-connected-components", dict(info, mode=mode, expected_net=sorted(want), expected_writer=at(0).replace("s.", pre, 1),
+                     observed={"|".join(sorted(k)): v for k, v in nets.items()}, design_source=src), case=("holey", case)); return
+      for _ in range(3):
+        x = rng.getrandbits(8); top.in_ @= x; top.sim_eval_combinational()
+        host = top.c if in_child else top
+        lst = host.stage[0] if two_d else host.stage
+        got = [int(lst[i]) for i in idx] + [int(top.out)]
+        sh.count("holey_list_value_comparisons", len(got))
+        if any(g != (x + 1) & 255 for g in got):
+          sh.violation("net-member-differs-from-writer-in-simulation", dict(info, mode=mode, input=x, members_and_out=got, expected=(x + 1) & 255, design_source=src), case=("holey", case)); return
+        top.sim_tick()
+    sh.count("holey_list_designs"); sh.fp("holey", tuple(sorted(info.items())))
+  finally:
+    G.unload(mod)
+
+
 IFC_SWAP_SRC = """
 from pymtl3 import *
 def mkf(P, n):
@@ -389,6 +450,7 @@ def run_shard(sh):
     run_const_template(sh, sh.idx * 1000 + case)
     run_chain(sh, sh.idx * 1000 + case)
     run_ifc_swap(sh, sh.idx * 1000 + case)
+    run_holey(sh, sh.idx * 1000 + case)
   for case in range(sh.params["designs"]):
     if sh.only is not None and str(case) != str(sh.only).strip('"'):
       continue
